@@ -10,5 +10,7 @@ CONSTANTS
   Emit = TRUE
   CharSigned = TRUE
   EUSuffixed = {}
+  GenClasses = {"scalar", "array", "bitfield", "nested", "anon"}
+  GenPacked = FALSE
   CheckSim = FALSE
 CHECK_DEADLOCK FALSE
